@@ -28,6 +28,8 @@
 
 static int fn = -1;
 static int opt_multifam;        /* read AdditionalFamilyName_t under Family_t (cg_nmultifam refuses that position today) */
+static int opt_pz_multifam;     /* ... under ParticleZone_t (cg_nmultifam refuses that position today) */
+static int opt_pz_int;          /* IntegralData_t under ParticleZone_t (cg_nintegrals refuses that position today) */
 static char *W[4096];
 static int NW;
 static int dbg;
@@ -827,7 +829,7 @@ static void read_pzone(int B, int P)
     cur_idim = 1;
     push("ParticleZone_t", P, "ParticleZone_t", P);
     v = np; r_ints1(NULL, name, 1, &v);
-    ctx_read(F_DDDU | F_FAMNAME | F_MULTIFAM);
+    ctx_read(F_DDDU | F_FAMNAME | (opt_pz_multifam ? F_MULTIFAM : 0));
     n = 0; CHK(cg_particle_ncoord_nodes(fn, B, P, &n));
     for (int g = 1; g <= n; g++) {
         char gname[64];
@@ -858,7 +860,21 @@ static void read_pzone(int B, int P)
         CHK(cg_particle_sol_info(fn, B, P, s, sname));
         push("ParticleSolution_t", s, "ParticleSolution_t", s);
         r_none(NULL, sname);
-        ctx_read(F_DDDU | F_PTSET);
+        ctx_read(F_DDDU);
+        {   /* the point set through the particle API (cg_ptset_read cannot resolve an index dimension outside a Zone_t) */
+            CGNS_ENUMT(PointSetType_t) pt; cgsize_t npp = 0;
+            CHK(cg_particle_sol_ptset_info(fn, B, P, s, &pt, &npp));
+            if (npp > 0) {
+                cgsize_t *pp = (cgsize_t *)calloc((size_t)npp + 2, sizeof(cgsize_t));
+                long long *pv = (long long *)calloc((size_t)npp + 2, sizeof(long long)), d[2];
+                CHK(cg_particle_sol_ptset_read(fn, B, P, s, pp));
+                for (long long i = 0; i < npp; i++) pv[i] = pp[i];
+                d[0] = 1; d[1] = npp;
+                if (pt == CGNS_ENUMV(PointRange)) r_ints("/IndexRange_t.PointRange:1", "PointRange", 2, d, pv);
+                else r_ints("/IndexArray_t.PointList:1", PointSetTypeName[pt], 2, d, pv);
+                free(pp); free(pv);
+            }
+        }
         CHK(cg_particle_sol_size(fn, B, P, s, &size));
         CHK(cg_particle_nfields(fn, B, P, s, &nf));
         for (int f = 1; f <= nf; f++) {
@@ -874,7 +890,7 @@ static void read_pzone(int B, int P)
         }
         pop(1);
     }
-    read_common_t2(0, T2_STATE | T2_INT | T2_PEQ);
+    read_common_t2(0, T2_STATE | (opt_pz_int ? T2_INT : 0) | T2_PEQ);
     { char pn[64]; int rc2 = cg_piter_read(fn, B, P, pn);
       if (rc2 == CG_OK) { push("ParticleIterativeData_t", 1, "ParticleIterativeData_t", 1); r_none(NULL, pn); ctx_read(F_DDDU | F_ARRAYS); pop(1); }
       else if (rc2 != CG_NODE_NOT_FOUND) { nerr++; printf("X %s cg_piter_read %d\n", RP, rc2); } }
@@ -1418,7 +1434,12 @@ int main(void)
             ERR(rc, "cfg");
             printf("c %d\n", rc);
         }
-        else if (!strcmp(c, "opt")) { if (!strcmp(W[1], "multifam")) opt_multifam = atoi(W[2]); printf("c 0\n"); }
+        else if (!strcmp(c, "opt")) {
+            if (!strcmp(W[1], "multifam")) opt_multifam = atoi(W[2]);
+            else if (!strcmp(W[1], "pzone_multifam")) opt_pz_multifam = atoi(W[2]);
+            else if (!strcmp(W[1], "pzone_integrals")) opt_pz_int = atoi(W[2]);
+            printf("c 0\n");
+        }
         else if (!strcmp(c, "open")) {
             rc = cg_open(W[2], W[1][0] == 'w' ? CG_MODE_WRITE : W[1][0] == 'r' ? CG_MODE_READ : CG_MODE_MODIFY, &fn);
             ERR(rc, "open"); printf("c %d\n", rc);
